@@ -72,9 +72,8 @@ def record_writes(args, tmp):
 # C17
 # ---------------------------------------------------------------------------
 def c17_modes(rep, tmp):
-    old = b"OLDDATA!"
-    chunks = [2, 1]
-    for kind in ("stream", "packet"):
+    old = b"OLD-CONTENT-" * 9  # longer than anything the runs below write
+    for kind, chunks in (("stream", [2, 1]), ("packet", [2, 1]), ("stream", []), ("packet", []), ("stream", [40])):
         new = expected_stream(chunks, kind)
         for mode in ("create", "overwrite", "append"):
             for state in ("absent", "empty", "nonempty", "directory", "missing-dir"):
@@ -106,7 +105,7 @@ def c17_modes(rep, tmp):
                 else:
                     want_ok = True
                     want_bytes = (old if state == "nonempty" else b"") + new
-                case = {"engine": "faultx", "what": "modes", "kind": kind, "mode": mode, "state": state}
+                case = {"engine": "faultx", "what": "modes", "kind": kind, "mode": mode, "state": state, "chunks": chunks}
                 sig = f"C17/FileSink-{kind}/mode-{mode}/{state}"
                 if crashed:
                     violate(rep, sig + "/crash", f"{case}: child exited {r.returncode}: {r.stderr[-300:]}", case)
@@ -128,9 +127,12 @@ def c17_kill(rep, tmp, tier, only=None):
     configs = []
     for kind in ("stream", "packet"):
         for mode in ("overwrite", "append", "create"):
-            chunks = [1, 3, 2, 1024, 5, 1] if kind == "stream" else [1, 2, 1]
+            # The child's stream holds 4096 u32 samples: chunks of 2048+ samples
+            # are 8 KiB and more in a single work() call, beyond what a
+            # default-sized BufWriter buffers.
+            chunks = [1, 3, 2048, 2500, 5, 4096, 1] if kind == "stream" else [1, 2, 1]
             if tier == "thorough" and kind == "stream":
-                configs.append((kind, mode, [1024, 1024, 7, 1, 300, 2]))
+                configs.append((kind, mode, [1024, 4095, 7, 1, 3000, 2]))
             configs.append((kind, mode, chunks))
     for kind, mode, chunks in configs:
         if only and (only["kind"], only["mode"], only["chunks"]) != (kind, mode, chunks):
